@@ -1,7 +1,6 @@
 package main
 
 import (
-	"go/types"
 	"fmt"
 	"go/token"
 	"regexp"
@@ -23,7 +22,10 @@ func init() {
 			"(bypassed only by len(UserMetadata)==0) and, inside it, a per-entry comma-ok lookup and value equality over the caller's map with no early success; " +
 			"soft failures are sticky (a later store of a possibly-nil value into outcome.Error re-opens the exit and is reported); " +
 			"integrity is 'enforce' in the three non-skip level literals and the custom-level store is cut by type != integrity. " +
-			"Checks are located through composition over module-internal calls with labels rewritten into the entry point's frame, so helper names are not anchors.",
+			"Checks are located through composition over module-internal calls with labels rewritten into the entry point's frame, so helper names are not anchors. " +
+			"Exits that hand back the result of a verdict forwarder (a result constructor newResult(…, err), a failure exit failed(err) that records and returns its argument, an error wrapper) " +
+			"are classified by the forwarded argument at the call site (extra_c01.go); the media-type disjunction and the metadata obligation are decided by the cut argument across helper " +
+			"boundaries with the helpers' parameters rewritten to the arguments (a helper's own allocations are kept apart from the entry point's), whatever the helper is handed or answers (error / bool).",
 		NotCov:  "cryptographic validity of the signature, envelope parsing, content.Equal's body, JSON duplicate-key semantics (trusted: notation-core-go, oras-go, encoding/json).",
 		Trusted: []string{"go/types, go/ssa (x/tools v0.29.0)", "notation-core-go signature.ParseEnvelope / Envelope.Verify", "oras-go content.Equal", "encoding/json"},
 	})
@@ -48,7 +50,7 @@ func skipEdges(fi *FnInfo) map[edgeKey]bool {
 func nonSkipSummary(w *World, fn *ssa.Function) (*Summary, int) {
 	fi := w.Info(fn)
 	se := skipEdges(fi)
-	return fi.summarizeFrom(Mode{Kind: mErr}, entryState(), se), len(se)
+	return c01Engine(w).summarizeFrom(fi, Mode{Kind: mErr}, entryState(), se), len(se)
 }
 
 var reUnmarshalPayload = regexp.MustCompile(`^EQ\(call:encoding/json\.Unmarshal\((.+)\.EnvelopeContent\.Payload\.Content,(alloc:ngo/internal/envelope\.Payload<[^>]*>)\)#err,nil\)$`)
@@ -87,7 +89,7 @@ func runC01(c *Ctx) {
 	}
 	// ---- wrapper -----------------------------------------------------------
 	if fn := w.Func("", "VerifyBlob"); fn != nil {
-		s := w.Summarize(fn, Mode{Kind: mErr})
+		s := c01Engine(w).Summarize(fn, Mode{Kind: mErr})
 		c.requireOnExits("wrapper/notation.VerifyBlob", fn, s.Exits, []Need{
 			{Name: "verifier-success", What: "BlobVerifier.VerifyBlob(...) err == nil (the wrapper adds no success of its own)",
 				Subs: []string{"EQ(call:invoke:ngo.BlobVerifier.VerifyBlob(", "#err,nil)"}},
@@ -207,7 +209,7 @@ func c01Entry(c *Ctx, fn *ssa.Function, kind string) {
 	} else {
 		c01BlobBinding(c, fn, fi, sum, ta, outcomeDesc)
 	}
-	c01Metadata(c, fn, fi, payloadAlloc, pre)
+	c01Metadata(c, fn, payloadAlloc, outcomeDesc, pre)
 }
 
 func c01BlobBinding(c *Ctx, fn *ssa.Function, fi *FnInfo, sum *Summary, ta, outcomeDesc string) {
@@ -230,8 +232,6 @@ func c01BlobBinding(c *Ctx, fn *ssa.Function, fi *FnInfo, sum *Summary, ta, outc
 	// media type: pass = (desc.MediaType == "") or (desc.MediaType == target.MediaType)
 	reMT := regexp.MustCompile(`^EQ\(` + both(gen+`#0\.MediaType`, q(ta)+`\.MediaType`) + `\)$`)
 	reEmpty := regexp.MustCompile(`^EQ\(` + both(gen+`#0\.MediaType`, `const:""`) + `\)$`)
-	cut := skipEdges(fi)
-	nMT, nEmpty := 0, 0
 	// a disjunction of the two facts (the value of `mt != "" && mt != signed` tested as one condition)
 	isOrOfBoth := func(l string) bool {
 		op, alts := splitTopArgs(l)
@@ -248,286 +248,35 @@ func c01BlobBinding(c *Ctx, fn *ssa.Function, fi *FnInfo, sum *Summary, ta, outc
 		}
 		return hasMT
 	}
-	for e := range fi.edgesMatching(func(l string, _ *ssa.If, _ bool) bool { return reMT.MatchString(l) || isOrOfBoth(l) }) {
-		cut[e] = true
-		nMT++
-	}
-	for e := range fi.edgesMatching(func(l string, _ *ssa.If, _ bool) bool { return reEmpty.MatchString(l) }) {
-		cut[e] = true
-		nEmpty++
+	// The obligation is decided by the cut argument over the call tree (gateHolds): with every edge removed on which one of
+	// the two facts holds — in VerifyBlob itself, or inside a module helper whose passing answer VerifyBlob tests or forwards,
+	// the helper's parameters replaced by the arguments — no non-skip success exit may remain reachable. Where the
+	// comparison is written (inline, in a variable, in a predicate with one exit per alternative, as the value a predicate
+	// returns) does not matter; what the facts are about does: they are matched after rewriting into VerifyBlob's frame, so
+	// they must relate the generated descriptor's media type to the signed target's (or to "").
+	nMT := 0
+	fact := func(l string) bool {
+		if reMT.MatchString(l) || isOrOfBoth(l) {
+			nMT++
+			return true
+		}
+		return reEmpty.MatchString(l)
 	}
 	rule := "must-check (disjunctive): every non-skip success exit passes desc.MediaType == signed MediaType, bypassable only by desc.MediaType == \"\""
-	if nMT == 0 {
-		// the comparison may live in a boolean helper whose answer gates success: then every exit of the helper with
-		// that answer must carry one of the two facts
-		okHelper := false
-		for _, ci := range allCalls(fn) {
-			call, isC := ci.(*ssa.Call)
-			if !isC {
-				continue
-			}
-			b, isB := call.Type().Underlying().(*types.Basic)
-			if !isB || b.Kind() != types.Bool || staticCallee(call) == nil || !w.IsProductFn(staticCallee(call)) {
-				continue
-			}
-			for _, want := range []bool{false, true} {
-				lbl := "F(" + desc(call) + ")"
-				if want {
-					lbl = "T(" + desc(call) + ")"
-				}
-				onAll := len(sum.Exits) > 0
-				for _, ex := range sum.Exits {
-					if _, h := ex.Checked[lbl]; !h {
-						onAll = false
-					}
-				}
-				if !onAll {
-					continue
-				}
-				exits := w.exitLabelsOfCall(call, Mode{Kind: mBool, Want: want})
-				good := len(exits) > 0
-				for _, m := range exits {
-					has := false
-					for l := range m {
-						if reMT.MatchString(l) || reEmpty.MatchString(l) {
-							has = true
-						}
-						// a disjunction all of whose alternatives are one of the two facts
-						if op, alts := splitTopArgs(l); op == "OR" && len(alts) > 0 {
-							all := true
-							for _, a := range alts {
-								if !reMT.MatchString(a) && !reEmpty.MatchString(a) {
-									all = false
-								}
-							}
-							if all {
-								has = true
-							}
-						}
-					}
-					if !has {
-						good = false
-					}
-				}
-				if good {
-					okHelper = true
-				}
-			}
-		}
-		c.Evals++
-		if okHelper {
-			c.OK("blob/mediatype-equal", rule+" (decided inside a boolean helper whose answer gates every non-skip success exit)", w.FnPos(fn))
-			return
-		}
+	nFact := 0
+	holds, path := c01Engine(w).gateHolds(fn, Mode{Kind: mErr}, c01Frame{}, skipEdges(fi), fact, 0, &nFact)
+	c.Evals += 2
+	switch {
+	case nMT == 0:
 		c.Bad("blob/mediatype-equal", rule, w.FnPos(fn), "no comparison between the generated descriptor's MediaType and the signed target's MediaType exists")
-		return
-	}
-	if path := fi.successWitness(Mode{Kind: mErr}, entryState(), cut); path != nil {
+	case !holds:
 		c.Bad("blob/mediatype-equal", rule, w.FnPos(fn), "a non-skip success exit is reachable without the media type comparison", path...)
-	} else {
+	default:
 		c.OK("blob/mediatype-equal", rule, w.FnPos(fn))
 	}
-	c.Evals += 2
 }
 
-// c01Metadata: required user metadata. Recursive path obligation: on every
-// non-skip success path of fn, either the required-metadata map is empty, or a
-// metadata verifier M (a function whose loop over that map passes the
-// per-entry gates against the signed payload's annotations) returned nil, or a
-// module callee that received the map satisfies the same obligation.
-func c01Metadata(c *Ctx, fn *ssa.Function, fi *FnInfo, payloadAlloc, pre string) {
-	w := c.W
-	rule := "path obligation (recursive through module calls): on every non-skip success path the required-metadata check over the signed payload's annotations returned nil, bypassable only by len(UserMetadata) == 0"
-	memo := map[string]bool{}
-	var verifiers []string
-	ok, wit, site := c01MetaHolds(c, fn, paramWhere(fn, hasField("UserMetadata"))+".UserMetadata", map[string]string{payloadAlloc: "payload"}, true, 0, memo, &verifiers, pre)
-	c.Evals++
-	if ok {
-		c.OK(pre+"/metadata-gate", rule, site)
-	} else {
-		c.Bad(pre+"/metadata-gate", rule, site, "a non-skip success exit is reachable although the metadata check failed or was not made on that path (e.g. its result is stored unconditionally and overwrites an earlier failure, or an early return bypasses it)", wit...)
-	}
-	if len(verifiers) == 0 {
-		c.Bad(pre+"/metadata-loop", "per-entry gate: a loop over the required metadata with comma-ok lookup and value equality against the signed annotations", w.FnPos(fn), "no function on the call tree checks the required metadata entry by entry against the signed payload")
-	}
-}
-
-// c01MetaHolds decides the path obligation for fn. payloads maps descriptions
-// (in fn's frame) of values known to be the decoded signed payload
-// ("payload") or the verified signature.Payload / EnvelopeContent ("raw").
-func c01MetaHolds(c *Ctx, fn *ssa.Function, metaDesc string, payloads map[string]string, nonSkip bool, depth int, memo map[string]bool, verifiers *[]string, pre string) (bool, []string, string) {
-	w := c.W
-	fi := w.Info(fn)
-	c.SeenFn(fn.String())
-	site := w.FnPos(fn)
-	if depth > 4 {
-		return false, nil, site
-	}
-	cut := map[edgeKey]bool{}
-	if nonSkip {
-		cut = skipEdges(fi)
-	}
-	for e := range fi.edgesMatching(func(l string, _ *ssa.If, _ bool) bool {
-		return l == "LE(len("+metaDesc+"),const:0)" || l == "EQ(len("+metaDesc+"),const:0)" || l == "LT(len("+metaDesc+"),const:1)" || l == "EQ("+metaDesc+",nil)"
-	}) {
-		cut[e] = true
-	}
-	// the function itself may be a verifier (loop over metaDesc)
-	if annD, ok := c01FindPayloadAnnotations(w, fn, payloads); ok {
-		if c01MetadataLoop(c, fn, metaDesc, annD, pre, false) {
-			*verifiers = append(*verifiers, fnName(fn))
-			c01MetadataLoop(c, fn, metaDesc, annD, pre, true)
-			return true, nil, site
-		}
-	}
-	goodTail := map[*ssa.Call]bool{}
-	for _, ci := range allCalls(fn) {
-		call, ok := ci.(*ssa.Call)
-		if !ok {
-			continue
-		}
-		g := staticCallee(call)
-		if g == nil || g.Blocks == nil || !w.IsProductFn(g) || len(call.Call.Args) != len(g.Params) {
-			continue
-		}
-		mp := ""
-		sub := map[string]string{}
-		for i, a := range call.Call.Args {
-			d := desc(a)
-			if d == metaDesc {
-				mp = "param:" + g.Params[i].Name()
-			}
-			if kind, ok := payloads[d]; ok {
-				sub["param:"+g.Params[i].Name()] = kind
-			}
-			// the verified outcome / envelope content handed down
-			if strings.HasSuffix(d, ".EnvelopeContent.Payload") || strings.HasSuffix(d, ".EnvelopeContent") {
-				sub["param:"+g.Params[i].Name()] = "raw:" + strings.TrimPrefix(d[strings.LastIndex(d, ".EnvelopeContent"):], ".EnvelopeContent")
-			}
-			if namedOf(a.Type()) == "ngo.VerificationOutcome" {
-				sub["param:"+g.Params[i].Name()] = "outcome"
-			}
-		}
-		if mp == "" {
-			continue
-		}
-		k := fnName(g) + "|" + mp
-		res, done := memo[k]
-		if !done {
-			memo[k] = false
-			res, _, _ = c01MetaHolds(c, g, mp, sub, false, depth+1, memo, verifiers, pre)
-			memo[k] = res
-		}
-		if !res {
-			continue
-		}
-		site = w.InstrPos(call)
-		lbl := "EQ(" + descTailErr(call) + ",nil)"
-		for e := range fi.edgesMatching(func(l string, _ *ssa.If, _ bool) bool { return l == lbl }) {
-			cut[e] = true
-		}
-		goodTail[call] = true
-	}
-	fi.ignoreTail = goodTail
-	wit := fi.successWitness(Mode{Kind: mErr}, entryState(), cut)
-	fi.ignoreTail = nil
-	return wit == nil, wit, site
-}
-
-// c01FindPayloadAnnotations returns the description, in fn's frame, of the
-// signed payload's annotations map: <payload>.TargetArtifact.Annotations where
-// <payload> is a known decoded payload, or a local envelope.Payload decoded in
-// fn (json.Unmarshal, error checked on every success path) from the verified
-// payload content.
-func c01FindPayloadAnnotations(w *World, fn *ssa.Function, payloads map[string]string) (string, bool) {
-	for d, kind := range payloads {
-		if kind == "payload" {
-			return d + ".TargetArtifact.Annotations", true
-		}
-	}
-	s := w.Summarize(fn, Mode{Kind: mErr})
-	for l := range s.Checked {
-		m := reUnmarshalAny.FindStringSubmatch(l)
-		if m == nil {
-			continue
-		}
-		src, dst := m[1], m[2]
-		for d, kind := range payloads {
-			switch {
-			case strings.HasPrefix(kind, "raw:") && src == d+strings.TrimPrefix(".Payload.Content", strings.TrimPrefix(kind, "raw:")):
-				return dst + ".TargetArtifact.Annotations", true
-			case kind == "outcome" && src == d+".EnvelopeContent.Payload.Content":
-				return dst + ".TargetArtifact.Annotations", true
-			}
-		}
-	}
-	return "", false
-}
-
-var reUnmarshalAny = regexp.MustCompile(`^EQ\(call:encoding/json\.Unmarshal\((.+),(alloc:ngo/internal/envelope\.Payload<[^>]*>)\)#err,nil\)$`)
-
-// c01MetadataLoop: in fn, a range loop over metaDesc whose every completed
-// iteration passes ok(annDesc[key]) and value equality; success only after the loop.
-func c01MetadataLoop(c *Ctx, fn *ssa.Function, metaDesc, annDesc, pre string, report bool) bool {
-	w := c.W
-	fi := w.Info(fn)
-	c.SeenFn(fn.String())
-	if !report {
-		// dry run: decide without recording obligations
-		saved := c.Obls
-		savedKeys := map[string]*Obligation{}
-		for k, v := range c.byKey {
-			savedKeys[k] = v
-		}
-		res := c01MetadataLoop(c, fn, metaDesc, annDesc, pre, true)
-		c.Obls = saved
-		c.byKey = savedKeys
-		return res
-	}
-	rule := "per-entry gate: the loop ranges over the caller's required metadata; every completed iteration passes the comma-ok lookup in the signed annotations and the value equality; no success exit is reachable from inside the body"
-	var loop *rangeLoop
-	for _, rl := range rangeLoops(fn) {
-		rl := rl
-		if desc(rl.X) == metaDesc {
-			loop = &rl
-		}
-	}
-	if loop == nil {
-		c.Bad(pre+"/metadata-loop", rule, w.FnPos(fn), "no range loop over the required metadata map ("+metaDesc+") in "+fnName(fn))
-		return false
-	}
-	labels, ok := fi.mustPassBetween([]int{loop.Body.Index}, map[int]bool{loop.Header.Index: true})
-	c.Evals++
-	key := "rangekey(" + metaDesc + ")"
-	val := "rangeval(" + metaDesc + ")"
-	lookup := annDesc + "[" + key + "]"
-	if !ok {
-		c.Unk(pre+"/metadata-loop", rule, w.InstrPos(loop.Next), "loop body never returns to the loop header: shape not recognised")
-		return false
-	}
-	_, okLookup := labels["T(ok("+lookup+"))"]
-	_, okEq1 := labels["EQ("+lookup+","+val+")"]
-	_, okEq2 := labels["EQ("+val+","+lookup+")"]
-	if !okLookup || !(okEq1 || okEq2) {
-		c.Bad(pre+"/metadata-loop", rule, w.InstrPos(loop.Next), "an iteration can complete without T(ok("+lookup+")) and EQ("+lookup+","+val+"); facts on every completed iteration: "+summarizeLabels(labels, 8))
-		return false
-	}
-	// no success exit from inside the body without going through the header
-	cut := map[edgeKey]bool{}
-	for _, p := range loop.Header.Preds {
-		for j, s := range p.Succs {
-			if s == loop.Header && loopBlocks(loop.Header)[p.Index] && p != loop.Header {
-				cut[edgeKey{p.Index, j}] = true
-			}
-		}
-	}
-	if path := fi.successWitness(Mode{Kind: mErr}, []state{{loop.Body.Index, 0, -1}}, cut); path != nil {
-		c.Bad(pre+"/metadata-loop", rule, w.InstrPos(loop.Next), "a success exit is reachable from inside the loop body (early success before all pairs are checked)", path...)
-		return false
-	}
-	c.OK(pre+"/metadata-loop", rule, w.InstrPos(loop.Next))
-	return true
-}
+// the metadata obligation (c01Metadata) lives in extra_c01.go
 
 // c01Levels: integrity is enforce in every non-skip level and cannot be overridden.
 func c01Levels(c *Ctx) {
